@@ -67,20 +67,43 @@ pub struct EncOpts {
 	pub meta_name: &'static str,
 	pub no_meta: bool,
 	pub stray_files: bool,
+	/// spell some numbers of the path with a leading zero or plus sign (`03/`, `+7/`, `012.png`): the reader
+	/// parses the names as numbers, so one level / column may be spread over several folders. Not claimed
+	/// to be part of the published layout — only used where consistency of what the reader returns is checked.
+	pub alt_spellings: bool,
 }
 impl EncOpts {
 	pub fn random(rng: &mut Rng) -> EncOpts {
-		EncOpts { meta_name: *rng.pick(&["tiles.json", "meta.json", "metadata.json"]), no_meta: rng.chance(0.2), stray_files: rng.chance(0.4) }
+		EncOpts { meta_name: *rng.pick(&["tiles.json", "meta.json", "metadata.json"]), no_meta: rng.chance(0.2), stray_files: rng.chance(0.4), alt_spellings: false }
+	}
+}
+
+fn spell(n: u32, variant: u32) -> String {
+	match variant % 4 {
+		1 => format!("0{n}"),
+		2 => format!("+{n}"),
+		_ => n.to_string(),
 	}
 }
 
 pub fn encode(ts: &TileSet, root: &Path, o: &EncOpts) -> Result<(), String> {
 	let ext = super::ext_of(super::format_name(ts.format));
 	std::fs::create_dir_all(root).map_err(|e| e.to_string())?;
+	// middle column of every level
+	let mut mid: std::collections::BTreeMap<u8, u32> = Default::default();
+	for z in ts.levels() {
+		let xs: Vec<u32> = ts.tiles.keys().filter(|k| k.0 == z).map(|k| k.1).collect();
+		let (lo, hi) = (*xs.iter().min().unwrap(), *xs.iter().max().unwrap());
+		mid.insert(z, lo + (hi - lo) / 2);
+	}
 	for (k, v) in &ts.tiles {
-		let dir = root.join(k.0.to_string()).join(k.1.to_string());
+		// the spelling of z depends on the column, that of x on the row: every tile still has exactly one path
+		// (the lower half of a level's columns goes into one folder, the upper half into another one, so each
+		// folder on its own covers less than the level)
+		let (vz, vx, vy) = if o.alt_spellings { (if k.1 <= mid.get(&k.0).cloned().unwrap_or(0) { 0 } else { 1 + k.1 % 2 }, k.2 % 5, (k.1 + k.2) % 7) } else { (0, 0, 0) };
+		let dir = root.join(spell(k.0 as u32, vz)).join(spell(k.1, if vx == 1 { 1 } else { 0 }));
 		std::fs::create_dir_all(&dir).map_err(|e| e.to_string())?;
-		std::fs::write(dir.join(format!("{}{}{}", k.2, ext, ts.comp.ext())), v).map_err(|e| e.to_string())?;
+		std::fs::write(dir.join(format!("{}{}{}", spell(k.2, if vy == 1 { 1 } else { 0 }), ext, ts.comp.ext())), v).map_err(|e| e.to_string())?;
 	}
 	if !o.no_meta {
 		std::fs::write(root.join(format!("{}{}", o.meta_name, ts.comp.ext())), comp::compress(ts.tilejson.as_bytes(), ts.comp)).map_err(|e| e.to_string())?;
